@@ -105,7 +105,8 @@ def race_keys(out):
         for part in re.split(r"\n\n", rep.replace("WARNING: DATA RACE\n", "")):
             if re.match(r"\s*(Write|Read|Previous write|Previous read)", part.strip()):
                 fm = FRAME.search(part)
-                fns.append(re.sub(r"\.func\d+.*$", "", fm.group(1)) if fm else "?")
+                hm = re.search(r"verif/harness/(c12\.\w+)", part)  # the harness's named callers
+                fns.append(re.sub(r"\.func\d+.*$", "", fm.group(1)) if fm else hm.group(1) if hm else "?")
         k = "race:" + "|".join(sorted(set(fns)))
         keys.setdefault(k, rep.strip()[:3000])
     return keys
